@@ -8,7 +8,7 @@ use std::{
 	ffi::{c_void, CStr, CString},
 	os::raw::{c_char, c_int},
 	path::PathBuf,
-	ptr::null_mut,
+	ptr::{null, null_mut},
 };
 
 use jrsonnet_evaluator::{
@@ -56,7 +56,7 @@ impl ImportResolver for CallbackImportResolver {
 			ResolvePath::Str(s) => CString::new(s.as_bytes()).unwrap(),
 			ResolvePath::Path(p) => unsafe { crate::unparse_path(p) },
 		};
-		let found_here: *mut c_char = null_mut();
+		let mut found_here: *const c_char = null();
 
 		let mut buf = null_mut();
 		let mut buf_len = 0;
@@ -65,19 +65,25 @@ impl ImportResolver for CallbackImportResolver {
 				self.ctx,
 				base.as_ptr(),
 				rel.as_ptr(),
-				&mut found_here.cast_const(),
+				// The callback writes the path here (a pointer to a temporary copy would lose it)
+				&raw mut found_here,
 				&raw mut buf,
 				&raw mut buf_len,
 			)
 		};
-		let buf_slice: &[u8] = unsafe { std::slice::from_raw_parts(buf.cast(), buf_len) };
-		unsafe {
-			std::alloc::dealloc(
-				buf.cast(),
-				Layout::from_size_align(buf_len, 1).expect("layout is valid"),
-			);
+		// Copy the callback's buffer before giving it back to the allocator
+		let buf_intern = if buf.is_null() || buf_len == 0 {
+			Vec::new()
+		} else {
+			let copy = unsafe { std::slice::from_raw_parts(buf.cast::<u8>(), buf_len) }.to_vec();
+			unsafe {
+				std::alloc::dealloc(
+					buf.cast(),
+					Layout::from_size_align(buf_len, 1).expect("layout is valid"),
+				);
+			};
+			copy
 		};
-		let buf_intern = buf_slice.to_vec();
 
 		assert!(success == 0 || success == 1);
 		if success == 0 {
@@ -90,7 +96,7 @@ impl ImportResolver for CallbackImportResolver {
 			found_here_raw.to_str().unwrap(),
 		)));
 		unsafe {
-			let _ = CString::from_raw(found_here);
+			let _ = CString::from_raw(found_here.cast_mut());
 		}
 
 		let mut out = self.out.borrow_mut();
